@@ -260,6 +260,40 @@ func init() {
 				return true
 			})
 		}
+		// proposed repair of F62: onWrite ignores the index part of a notification that arrives late (lastRec <= last.lastRec in the
+		// skip test) and never lowers Recs (the assignment is guarded by a comparison of Recs with lastRec+1)
+		skipsLate, recsGuarded := false, false
+		if fd := funcDecl(fc, "cindex", "onWrite"); fd != nil {
+			ast.Inspect(fd.Body, func(n ast.Node) bool {
+				if be, ok := n.(*ast.BinaryExpr); ok && (be.Op == token.LEQ || be.Op == token.LSS) {
+					xi, xok := be.X.(*ast.Ident)
+					ys, yok := be.Y.(*ast.SelectorExpr)
+					if xok && yok && xi.Name == "lastRec" && ys.Sel.Name == "lastRec" {
+						skipsLate = true
+					}
+				}
+				if is, ok := n.(*ast.IfStmt); ok {
+					condRecs := false
+					ast.Inspect(is.Cond, func(m ast.Node) bool {
+						if se, ok := m.(*ast.SelectorExpr); ok && se.Sel.Name == "Recs" {
+							condRecs = true
+						}
+						return true
+					})
+					if condRecs {
+						ast.Inspect(is.Body, func(m ast.Node) bool {
+							if as, ok := m.(*ast.AssignStmt); ok && len(as.Lhs) == 1 {
+								if se, ok := as.Lhs[0].(*ast.SelectorExpr); ok && se.Sel.Name == "Recs" {
+									recsGuarded = true
+								}
+							}
+							return true
+						})
+					}
+				}
+				return true
+			})
+		}
 		staleRepair := onWriteSetsRecs && lightFillSetsRecs && dropsStale && dropStaleStrict
 		if (onWriteSetsRecs || lightFillSetsRecs || dropsStale) && !staleRepair {
 			problem("cindex: the stale-entry handling (onWrite/lightFill set Recs, syncChunks calls dropStale, stale = Count() > Recs) is only partly recognised: onWrite=%v lightFill=%v syncChunks=%v strict=%v", onWriteSetsRecs, lightFillSetsRecs, dropsStale, dropStaleStrict)
@@ -516,6 +550,9 @@ func init() {
 		l.p("def staleDropOnlyForSnapshotEntries : Bool := %s", leanBool(dropOnlyLoaded && onWriteLoadedMiddle))
 		l.p("/-- `syncChunks`' second critical section keeps a known chunk that is newer than the last chunk of the caller's list (repair of F53); false: every known chunk missing from the list is forgotten -/")
 		l.p("def syncChunksKeepsNewerChunks : Bool := %s", leanBool(keepsNewer))
+		l.p("/-- `onWrite` leaves the index alone for a notification that arrives late (`lastRec <= last.lastRec`), and never lowers `Recs` (proposed repair of F62); false: the late interval is merged behind the newer point and `Recs` goes down -/")
+		l.p("def onWriteSkipsLateNotification : Bool := %s", leanBool(skipsLate))
+		l.p("def onWriteRecsNeverDecrease : Bool := %s", leanBool(recsGuarded))
 		l.p("/-- `lightFill` treats `MaxTs > 0` as \"hull known\" -/")
 		l.p("def lightFillKnownMeansPositive : Bool := %s", leanBool(lightFillPositive))
 		l.p("/-- `maxRecsPerBlock`: records per index block -/")
